@@ -392,3 +392,40 @@ def c19_bounded(tier="quick", seed=0):
         out.append(ob(f"C19.bounded.{kind}", not bad, "B", f"{cnt} cases" if not bad else f"{bad[0][0][:120]} -> {bad[0][1]} expected {bad[0][2]}",
                       witness=(bad[0][0] if bad else None), confirmed=True if bad else None, domain=cnt))
     return out
+
+
+@groups.group(id="C19.struct.process-state", prop="C19", kind="K3", functions=["microjs (module-level state)"])
+def c19_process_state(tier="quick", seed=0):
+    """parse builds fresh values and stringify depends on its argument only: no table of shared results (the analysis of C12)"""
+    from contracts.C12_context import process_state
+    return process_state("C19", tier, seed)
+
+
+@groups.group(id="C19.bounded.fresh-results", prop="C19", kind="B", functions=["microjs.context:Context._create_json_object.<parse_fn>"])
+def c19_fresh(tier="quick", seed=0):
+    """every JSON.parse builds its own value: changing one result never shows in a later parse of the same text -- in the
+    same evaluation, in a later one, in another context -- and stringify of a value reflects its current content"""
+    import json as _j
+    from microjs import Context
+    texts = ["[]", "{}", "[[]]", "{\"a\":[]}", "[1]", "{\"a\":1}", "[[],[]]", "[{}]", " [] ", "[\n]", "{\"k\":{}}", "null", "0", "\"\"", "true", "[null]"]
+    bad = None
+    n = 0
+    c1, c2 = Context(time_limit=10), Context(time_limit=10)
+    for t in texts:
+        canon = _j.dumps(_j.loads(t), separators=(",", ":"))
+        tj = _j.dumps(t)
+        mutate = ("function M(v) { if (v !== null && typeof v === 'object') { if (Array.isArray(v)) { v.push('X'); } v.zz = 1; for (var k in v) { M(v[k]); } } return v; } ")
+        progs = [(c1, mutate + f"var a = JSON.parse({tj}); M(a); var b = JSON.parse({tj}); JSON.stringify(b) + '|' + (a !== b || typeof a !== 'object' || a === null)"),
+                 (c1, f"JSON.stringify(JSON.parse({tj}))"), (c2, f"JSON.stringify(JSON.parse({tj}))"),
+                 (c1, mutate + f"var x = JSON.parse({tj}), y = JSON.parse({tj}); M(x); JSON.stringify(y)")]
+        wants = [canon + "|true", canon, canon, canon]
+        for (ctx, src), want in zip(progs, wants):
+            n += 1
+            try:
+                got = ctx.eval(src)
+            except Exception as e:  # noqa
+                got = "!" + type(e).__name__ + ": " + str(e)[:60]
+            if got != want and bad is None:
+                bad = (src, got, want)
+    return [ob("C19.bounded.fresh-results", bad is None, "B", f"{n} parse-mutate-parse sequences" if bad is None else f"{bad[0][-160:]} -> {bad[1]!r}, expected {bad[2]!r}",
+               witness=(bad[0] if bad else None), confirmed=True if bad else None, domain=n)]
